@@ -90,11 +90,13 @@ func c12ProgramFamilies(r *harness.Run) {
 		name string
 		opts lua.Options
 	}{
-		// a registry that starts at one slot: every frame entry that needs a register reallocates
-		{"grow1-from1", lua.Options{RegistrySize: 1, RegistryMaxSize: 1 << 20, RegistryGrowStep: 1}},
-		{"grow2-from8+minstack", lua.Options{RegistrySize: 8, RegistryMaxSize: 1 << 20, RegistryGrowStep: 2, MinimizeStackMemory: true, CallStackSize: 64}},
-		{"grow7-from30", lua.Options{RegistrySize: 30, RegistryMaxSize: 1 << 20, RegistryGrowStep: 7}},
+		// NewState replaces a RegistrySize below 128 by the default, so 128 is the smallest start that
+		// can be configured; the runner cuts the registry back to that size before every program
+		// (glrun.ShrinkRegistry), and the families run below a few padding frames (deepFrame) so
+		// that their own frames cross the capacity at different alignments
 		{"grow1-from128", lua.Options{RegistrySize: 128, RegistryMaxSize: 1 << 20, RegistryGrowStep: 1}},
+		{"grow2-from128+minstack", lua.Options{RegistrySize: 128, RegistryMaxSize: 1 << 20, RegistryGrowStep: 2, MinimizeStackMemory: true, CallStackSize: 64}},
+		{"grow7-from130", lua.Options{RegistrySize: 130, RegistryMaxSize: 1 << 20, RegistryGrowStep: 7}},
 		{"grow32-from160", lua.Options{RegistrySize: 160, RegistryMaxSize: 1 << 20, RegistryGrowStep: 32}},
 	}
 	for _, cfg := range configs {
@@ -103,7 +105,21 @@ func c12ProgramFamilies(r *harness.Run) {
 			return
 		}
 		pr := &progRunner{r: r, prop: "C12", opts: cfg.opts, sigPrefix: "p4/" + cfg.name + "/"}
-		gens := map[string]Gen{"F-growcross": genGrowCross(th), "F-call": genCall(th), "F-select": genSelectUnpack(th), "F-closure": genClosure(th), "F-genfor": genGenFor(th), "F-errval": genErrVal(th), "F-callmeta": genMetaCall(th), "F-index": genMetaIndex(th)}
-		pr.runGens(gens, []string{"F-growcross", "F-select", "F-closure", "F-genfor", "F-errval", "F-callmeta", "F-index", "F-call"})
+		gens := map[string]Gen{"F-growcross": genGrowCross(th), "F-callalign": genCallAlign()}
+		order := []string{"F-growcross", "F-callalign"}
+		depths := []int{5, 6}
+		if th {
+			depths = []int{4, 5, 6, 7}
+		}
+		for _, d := range depths {
+			pre := fmt.Sprintf("D%d/", d)
+			for n, g := range map[string]Gen{"F-select": genSelectUnpack(th), "F-closure": genClosure(th), "F-genfor": genGenFor(th), "F-errval": genErrVal(th), "F-callmeta": genMetaCall(th), "F-index": genMetaIndex(th), "F-hostbody": genHostBody(), "F-cochain": genCoChain()} {
+				gens[pre+n] = mapGen(g, pre, deepFrame(d))
+			}
+			order = append(order, pre+"F-select", pre+"F-closure", pre+"F-genfor", pre+"F-errval", pre+"F-callmeta", pre+"F-index", pre+"F-hostbody", pre+"F-cochain")
+		}
+		gens["D6/F-call"] = mapGen(genCall(th), "D6/", deepFrame(6))
+		order = append(order, "D6/F-call")
+		pr.runGens(gens, order)
 	}
 }
